@@ -1736,10 +1736,12 @@ func main() {
 		"a must-not-only boolean query scores boost x 1: its only matching part is the implicit match-all (constant 1), as the comment in BooleanQuery.Searcher says",
 		"N in the idf explanation is read as its message says: the number of documents that have the field, including a field without tokens",
 		"a case that fails in several ways reports the failure of the most specific class first; the idf message/value mismatch (key explain:idf-formula) is reported by every case that has nothing else to report",
+		"composite fields: the field length and term frequencies of a composite field are those of the concatenation of its source fields (judged differentially against the unsplit field)",
 		"all corpora are single-segment indexes without deletions (layout independence of scores is C08's subject)",
 	}
 	c.AddEnum(explore.Enumerate(explore.EnumConfig{Name: "c17-direct", Param: c.Tier, Budget: c.PickD(8*time.Second, 2*time.Minute)}))
 	c.AddEnum(explore.Enumerate(explore.EnumConfig{Name: "c17-corpora", Param: c.Tier, Budget: c.PickD(28*time.Second, 8*time.Minute)}))
+	c.AddEnum(explore.Enumerate(explore.EnumConfig{Name: "c17-composite", Param: c.Tier, Budget: c.PickD(10*time.Second, 3*time.Minute)}))
 	c.AddEnum(explore.Enumerate(explore.EnumConfig{Name: "c17-kinds", Param: c.Tier, Budget: c.PickD(5*time.Second, time.Minute), Chunk: 1}))
 	c.AddEnum(explore.Enumerate(explore.EnumConfig{Name: "c17-sequences", Param: c.Tier, Budget: c.PickD(8*time.Second, 2*time.Minute)}))
 	c.Extra["queries_per_corpus"] = len(queriesOf(c.Tier))
